@@ -78,6 +78,10 @@ def make_case(rng, i, tier):
             if ok and all(n[2] + n[3] <= trial["total"] or stratum == "B" for t in trial["tracks"] for n in t["notes"]):
                 trial["info"] = info
                 piece = trial
+    if i % 13 == 8 and stratum in ("A", "B"):
+        tw = tc.twin_rest_piece(cfg, i)
+        if tw is not None:
+            piece = tw
     # every ninth case: the tokeniser instance is first handed something it rejects (it raises); what the rejected call leaves behind
     # on the instance must not reach the legal round trip that follows
     return {"cfg": cfg, "piece": piece, "stratum": stratum,
@@ -112,6 +116,8 @@ def run(case, ctx):
         fails.append(fail("vocabulary_size_mismatch", (tok.dictionary_size, len(tok.dictionary))))
     seqs = [gen.build_seq(t) for t in piece["tracks"]]
     LOG.n("c01.flags." + "".join("1" if x else "0" for x in cfg["flags"]))
+    if piece.get("twin_rest"):
+        LOG.n("c01.twin_rest_piece")
     if not (piece.get("info") or {}).get("greedy_safe", True):
         LOG.n("c01.piece_needing_non_greedy_rests")
     shape = (st, "".join("1" if x else "0" for x in cfg["flags"]), cfg["tracks"], cfg["bins"], len(piece["ts"]))
